@@ -18,6 +18,11 @@ const KF_UNSIGNED: &str = "arcswap-unsigned-weights";
 /// known-finding class: decided by the input alone (total vertex weight >= 2^53, i64 weights)
 const KF_BIG: &str = "arcswap-share-rounding-above-2p53";
 
+/// weights `integer * f` whose sums are all exact in binary64
+fn is_pow2_scale(f: f64) -> bool {
+    f == 1.0 || f == 0.5 || f == 0.25 || f == 0.125
+}
+
 /// known_findings.json (never written at run time) has an open entry of this class
 fn kf_open(out: &str, class: &str) -> bool {
     std::fs::read_to_string(format!("{}/../../../known_findings.json", out))
@@ -1025,6 +1030,18 @@ fn main() {
                     c.mi = Some(8.0);
                 }
                 c.family = format!("unsigned2_{}", c.family);
+            } else if idx % 10 == 9 {
+                // f64 weights with EXACT sums (integers times 1, 1/2, 1/4, 1/8): replayed through the f64
+                // instance of the machine; the base case comes from any of the families
+                c = match r.below(4) {
+                    0 => gen_cap_case(&mut r, CapFam::Weightless).0,
+                    1 => gen_cap_case(&mut r, CapFam::Beyond).0,
+                    2 => gen_budget_case(&mut r).0,
+                    _ => c,
+                };
+                c.fscale = Some(*r.pick(&[1.0, 0.5, 0.25, 0.125]));
+                c.csr = false;
+                c.family = format!("f64x_{}", c.family);
             } else if idx % 10 == 7 {
                 // f64 weights (the library's own tests use them): non-representable fractions
                 c.fscale = Some(*r.pick(&[0.1, 0.3, 1.0 / 3.0, 1e-3, 2.5]));
@@ -1159,14 +1176,22 @@ fn main() {
         let coq = format!(
             "mk05 {} {} {} {} {} {} {} {} {}",
             coq_rows(&c.g),
-            coq_zlist(c.vw.iter().map(|x| *x as i128)),
+            match c.fscale {
+                // exact-sum f64 weights travel as bit patterns
+                Some(f) if is_pow2_scale(f) => coq_zlist(c.vw.iter().map(|x| (*x as f64 * f).to_bits() as i128)),
+                _ => coq_zlist(c.vw.iter().map(|x| *x as i128)),
+            },
             coq_natlist(c.p0.iter().cloned()),
             c.threads,
             mi_coq,
             coq_nlist(tr.iter().map(|x| *x as u128)),
             impl_coq,
             md_coq,
-            if c.fscale.is_some() { "1%N" } else { "0%N" }
+            match c.fscale {
+                Some(f) if is_pow2_scale(f) => "2%N",
+                Some(_) => "1%N",
+                None => "0%N",
+            }
         );
         let json = format!(
             "{{{}\"n\":{},\"rows\":{},\"vertex_weights\":{},\"p0\":{},\"threads\":{},\"max_imbalance\":{},\"topology\":\"{}\",\"policy\":\"{:?}\",\"schedule_seed\":{},\"passes\":{},\"choices\":{},\"events\":{},\"trace_enc\":{},\"impl\":{}}}",
